@@ -620,6 +620,7 @@ pub fn generate(rs: u64, focus: &str) -> Trace {
         "C05" => g.rng.weighted(&[0, 25, 0, 25, 15, 15, 0, 0, 0, 0, 0, 0, 0, 1, 0, 20]),
         "C12" => g.rng.weighted(&[15, 5, 0, 0, 0, 10, 0, 10, 0, 0, 0, 60, 0, 0, 0, 0]),
         "C17" => g.rng.weighted(&[0, 10, 0, 0, 10, 15, 0, 0, 10, 40, 10, 0, 0, 0, 0, 5]),
+        "C13" => g.rng.weighted(&[10, 0, 0, 10, 0, 20, 60, 0, 0, 0, 0, 0, 0, 0, 0, 0]),
         _ => g.rng.weighted(&[13, 13, 10, 13, 8, 12, 8, 7, 6, 4, 3, 4, 3, 1, 8, 7]),
     };
     let known: Vec<EvSpec> = g.model.events.values().cloned().collect();
@@ -1368,6 +1369,16 @@ pub fn run_conc_full(trace: &Trace, scratch: PathBuf, verbose: bool, known_open:
     let mut schedule: Vec<u8> = vec![];
     let mut hung = false;
     let mut deadlock = false;
+    // C13: the process is killed while the threads are at work (all parked at their yield points:
+    // the files are copied at a few instants fixed by the trace's seed) and once more when they
+    // have finished; every copy must open to a store in which every completed call is reflected
+    let kill_steps: Vec<u64> = if trace.cfg.prop == "C13" {
+        let sd = trace.cfg.seed;
+        vec![3 + sd % 17, 9 + (sd >> 8) % 41, 20 + (sd >> 16) % 83, 40 + (sd >> 24) % 131]
+    } else {
+        vec![]
+    };
+    let mut kill_snaps: Vec<(u64, PathBuf)> = vec![];
     std::thread::scope(|scope| {
         for t in 0..n {
             let ctl = ctl.clone();
@@ -1464,6 +1475,12 @@ pub fn run_conc_full(trace: &Trace, scratch: PathBuf, verbose: bool, known_open:
             }
             if g.status.iter().all(|s| *s == St::Done) {
                 break;
+            }
+            if kill_steps.contains(&g.step) && !kill_snaps.iter().any(|(s, _)| *s == g.step) {
+                let dst = scratch.join(format!("kill{}", g.step));
+                if crate::hooks::copy_store_files(&dir, &dst).is_ok() {
+                    kill_snaps.push((g.step, dst));
+                }
             }
             let compute = |g: &CtlState| -> Vec<usize> {
                 (0..n)
@@ -1688,6 +1705,114 @@ pub fn run_conc_full(trace: &Trace, scratch: PathBuf, verbose: bool, known_open:
         return r;
     }
 
+    // ---- C13: the kill instants of the concurrent phase, and one after it
+    let mut kill_finding: Option<Finding> = None;
+    if trace.cfg.prop == "C13" {
+        let end_step = ctl.step() + 1;
+        let dst = scratch.join("kill_end");
+        if crate::hooks::copy_store_files(&dir, &dst).is_ok() {
+            kill_snaps.push((end_step, dst));
+        }
+        // what nobody else in the run touches: plain stores whose event is named by no removal,
+        // vanish or request and shares no address with another event of the run
+        let mut touched: BTreeSet<B32> = BTreeSet::new();
+        let mut vanished_keys: BTreeSet<B32> = BTreeSet::new();
+        let mut addrs: BTreeMap<AddrKey, u32> = BTreeMap::new();
+        for r in &recs {
+            match &r.op {
+                Op::Remove(id) => {
+                    let _ = touched.insert(*id);
+                }
+                Op::Vanish(pk) => {
+                    let _ = vanished_keys.insert(*pk);
+                }
+                Op::Store(e) => {
+                    if let Some(a) = e.addr() {
+                        *addrs.entry(a).or_insert(0) += 1;
+                    }
+                    if e.kind == 5 {
+                        for t in &e.tags {
+                            if t.len() >= 2 && t[0] == "e" {
+                                if let Some(id) = parse_e_target(&t[1]) {
+                                    let _ = touched.insert(id);
+                                }
+                            }
+                        }
+                    }
+                }
+                _ => {}
+            }
+        }
+        for (step, snap) in &kill_snaps {
+            stats.inc("crash/kill_instants_in_concurrent_runs");
+            let opened = real::catch(|| Store::new(snap, vec![]));
+            let s2 = match opened {
+                Ok(Ok(s)) => s,
+                Ok(Err(e)) => {
+                    kill_finding = Some(Finding { clause: "crash-reopen-failed".into(), props: vec!["C13"], detail: format!("killed at step {step} of the concurrent phase: reopening the directory failed: {}", real::err_name(&e.inner)), op_index: 0 });
+                    break;
+                }
+                Err(p) => {
+                    kill_finding = Some(Finding { clause: "crash-reopen-panicked".into(), props: vec!["C13"], detail: format!("killed at step {step} of the concurrent phase: reopening the directory panicked: {p}"), op_index: 0 });
+                    break;
+                }
+            };
+            // every call completed before the kill is reflected: base events nobody touches, and
+            // plain stores that had returned
+            let mut must: Vec<(B32, Option<u64>)> = vec![];
+            for id in &model.retrievable {
+                let e = &model.events[id];
+                if !touched.contains(id) && !vanished_keys.contains(&e.pk) && e.addr().is_none() && (e.kind != 1059 || vanished_keys.is_empty()) && !recs.iter().any(|r| matches!(&r.op, Op::Store(x) if x.id == *id)) {
+                    must.push((*id, base_offsets.get(id).copied()));
+                }
+            }
+            for r in &recs {
+                if let (Op::Store(e), Outcome::Store(StoreOutcome::Ok(off))) = (&r.op, &r.out) {
+                    let alone = recs.iter().filter(|x| matches!(&x.op, Op::Store(y) if y.id == e.id)).count() == 1;
+                    if r.ret < *step && alone && e.kind != 5 && !is_ephemeral(e.kind) && !touched.contains(&e.id) && !vanished_keys.contains(&e.pk) && e.addr().is_none() && (e.kind != 1059 || vanished_keys.is_empty()) {
+                        must.push((e.id, Some(*off)));
+                    }
+                }
+            }
+            for (id, off) in must {
+                let want = enc.get(&id).map(|e| bytes_val(e.as_bytes()));
+                let got = real::catch(|| s2.get_event_by_id(pocket_types::Id::from_bytes(id)).map(|o| o.map(|e| bytes_val(e.as_bytes()))));
+                let ok = matches!(&got, Ok(Ok(Some(v))) if Some(v) == want.as_ref());
+                if !ok && kill_finding.is_none() {
+                    kill_finding = Some(Finding { clause: "crash-completed-call-not-reflected".into(), props: vec!["C13"], detail: format!("killed at step {step} of the concurrent phase: the store of {} had completed and nobody removed it, yet after reopening the lookup by id gives {:?}", short(&id), got.map(|r| r.map_err(|e| real::err_name(&e.inner)))), op_index: 0 });
+                }
+                if let Some(off) = off {
+                    let got = real::catch(|| s2.get_event_by_offset(off).map(|e| bytes_val(e.as_bytes())));
+                    let ok = matches!(&got, Ok(Ok(v)) if Some(v) == want.as_ref());
+                    if !ok && kill_finding.is_none() {
+                        kill_finding = Some(Finding { clause: "crash-completed-call-not-reflected".into(), props: vec!["C13", "C04"], detail: format!("killed at step {step} of the concurrent phase: offset {off} of the completed store of {} reads {:?} after reopening", short(&id), got.map(|r| r.map_err(|e| real::err_name(&e.inner)))), op_index: 0 });
+                    }
+                }
+            }
+            // and the recovered store works: a fresh event goes in and comes back
+            if kill_finding.is_none() {
+                let fresh = EvSpec { id: [0x5a; 32], pk: [0x5b; 32], kind: 1, at: crate::gen::T0, tags: vec![], content: vec![7; 40] };
+                let fe = real::encode(&fresh);
+                match real::store_event(&s2, &fe) {
+                    StoreOutcome::Ok(off) => {
+                        let back = real::catch(|| s2.get_event_by_offset(off).map(|e| e.as_bytes() == fe.as_bytes()));
+                        if !matches!(back, Ok(Ok(true))) {
+                            kill_finding = Some(Finding { clause: "crash-continuation-diverges".into(), props: vec!["C13"], detail: format!("killed at step {step} of the concurrent phase: an event stored after reopening does not read back"), op_index: 0 });
+                        }
+                    }
+                    other => {
+                        kill_finding = Some(Finding { clause: "crash-continuation-diverges".into(), props: vec!["C13"], detail: format!("killed at step {step} of the concurrent phase: a fresh event is refused after reopening: {}", other.label()), op_index: 0 });
+                    }
+                }
+            }
+            let _ = real::catch(|| s2.verif_close());
+            let _ = std::fs::remove_dir_all(snap);
+            if kill_finding.is_some() {
+                break;
+            }
+        }
+    }
+
     // ---- oracle
     let final_obs = obs::observe_real(&store, &model_universe(&model, &recs), &ObsOpts { battery: false, extra: false, offsets: true }, 0);
     let per_thread: Vec<Vec<usize>> = (0..n).map(|t| {
@@ -1811,6 +1936,18 @@ pub fn run_conc_full(trace: &Trace, scratch: PathBuf, verbose: bool, known_open:
         log.push(format!("FINDING {} {}", f.clause, f.detail));
     }
     let nops = trace.ops.len() + sorted.len();
+    match (&mut finding, kill_finding) {
+        (None, kf) => finding = kf,
+        (Some(f), Some(kf)) => {
+            for p in kf.props {
+                if !f.props.contains(&p) {
+                    f.props.push(p);
+                }
+            }
+            f.detail.push_str(&format!("; {}: {}", kf.clause, kf.detail));
+        }
+        _ => {}
+    }
     match (&mut finding, ref_finding) {
         (None, rf) => finding = rf,
         (Some(f), Some(rf)) => {
